@@ -2,7 +2,7 @@
    AGV events fire exactly when due by the clock invariant of C12). *)
 From Coq Require Import List ZArith Bool.
 From JSL Require Import Base.Res Base.ListX SM.Types SM.Util SM.Handler SM.Step SM.Inv
-  SMP.Post SMP.PostApply SMP.Offers SMP.Clock SMP.ClockMain.
+  SMP.Post SMP.PostApply SMP.Offers SMP.Clock SMP.ClockMain SMP.WF SMP.Reflect SMP.Feasible SMP.Unique.
 Import ListNotations.
 
 (* dispatch: the AGV reaches the pickup point exactly travel(where it stands -> where the job lies)
@@ -86,3 +86,26 @@ Theorem C07_dispatch_offers :
       /\ nth_error (s_trans x) t = Some ts /\ t_st ts = TIdle /\ nth_error (s_jobs x) j = Some jb
       /\ ~ In j (claims x) /\ (i_early i = false -> is_ready i x j jb = Ok true).
 Proof. exact transport_offers_spec. Qed.
+
+(* The pickups the simulator itself schedules: a due AGV is sent into TRANSIT only from WAITINGPICKUP, only for
+   the job it claimed at dispatch, and only if that job is ready for pickup (lies in a standalone or post buffer
+   at the position its discipline releases). *)
+Theorem C07_pickup_only_claimed_ready :
+  forall (i : inst) (x : state) (t : nat) (ts : transport) (tr : transition) (z : Z),
+    t_occ ts = OAt z -> timed_transport i x t ts = Ok [tr] -> tr_new tr = NT TTransit ->
+    t_st ts = TWaiting /\ exists j jb, tr = mkTr (CT t) (NT TTransit) (Some j) /\ t_job ts = Some j
+      /\ nth_error (s_jobs x) j = Some jb /\ is_ready i x j jb = Ok true.
+Proof. exact timed_transit_spec. Qed.
+Print Assumptions C07_pickup_only_claimed_ready.
+
+(* ... hence, in a state satisfying the store invariant (C03) and the feasibility invariant (C01), these
+   transitions satisfy the two side conditions the partial theorems of C01 and C04 assume (the job is not in
+   process; it is the AGV's claim) - in the state they are created in. What is NOT proved is that this survives
+   the other transitions of the same event batch and dependency-parked transitions; that part stays monitored. *)
+Theorem C07_side_conditions_at_creation :
+  forall (i : inst) (x : state) (t : nat) (ts : transport) (tr : transition) (z : Z),
+    wfs_b i x = true -> FE i x -> nth_error (s_trans x) t = Some ts ->
+    t_occ ts = OAt z -> timed_transport i x t ts = Ok [tr] -> tr_new tr = NT TTransit ->
+    transit_side_b tr x = true /\ transit_claim_b tr x = true.
+Proof. intros i x t ts tr z W. apply timed_transit_sides_at_creation. apply WFS_complete; auto. Qed.
+Print Assumptions C07_side_conditions_at_creation.
